@@ -31,6 +31,7 @@ class Module:
             warnings.simplefilter('ignore')
             self.tree = ast.parse(source, filename=relpath)
         self.norm_counts = {}
+        self.grafted = []
         self.renamed = {}
         self.propagated = {}
         self.inlined, self.not_inlined = [], []
@@ -38,6 +39,7 @@ class Module:
             from .normalize import normalize
             self.tree, self.norm_counts = normalize(self.tree)
             from . import alpha, inline
+            self.grafted = self._graft_moved_functions(relpath, loader)
             self.inlined, self.not_inlined = inline.apply(self.tree, relpath, loader)
             if self.inlined:
                 # inlined bodies can expose new canonicalisable forms (a literal flag substituted for a parameter ...)
@@ -57,6 +59,54 @@ class Module:
         self.parent = {}
         self.qualname = {}
         self._annotate(self.tree, None, '')
+
+    def _graft_moved_functions(self, relpath, loader):
+        """A module-level function of the reference snapshot that now lives in another package module and is imported back by name
+        (`from .hamming import hamming_circle`) is grafted into this module's tree, so that rules anchored on relpath:name still analyse it."""
+        from . import inline
+        import copy
+        ref = inline.ref_functions().get(relpath)
+        if not ref or loader is None:
+            return []
+        have = {n.name for n in self.tree.body if isinstance(n, (ast.FunctionDef, ast.AsyncFunctionDef, ast.ClassDef))}
+        missing = {q for q in ref if '.' not in q and '#' not in q and q not in have}
+        out = []
+        if not missing:
+            return out
+        pkg_dir = os.path.dirname(relpath)
+        for st in list(self.tree.body):
+            if not isinstance(st, ast.ImportFrom):
+                continue
+            for al in st.names:
+                name = al.asname or al.name
+                if name not in missing:
+                    continue
+                if st.level:
+                    base = pkg_dir
+                    for _ in range(st.level - 1):
+                        base = os.path.dirname(base)
+                    modpath = os.path.join(base, *(st.module.split('.') if st.module else []))
+                else:
+                    modpath = (st.module or '').replace('.', '/')
+                for rp in (modpath + '.py', modpath + '/__init__.py'):
+                    other = loader(rp)
+                    if other is None:
+                        continue
+                    for ch in other.body:
+                        if isinstance(ch, ast.FunctionDef) and ch.name == al.name:
+                            g = copy.deepcopy(ch)
+                            g.name = name
+                            self.tree.body.append(g)
+                            # private helpers of the moved function come along (they are inlined / analysed in place)
+                            used = {n.id for n in ast.walk(g) if isinstance(n, ast.Name)}
+                            for ch2 in other.body:
+                                if isinstance(ch2, ast.FunctionDef) and ch2.name in used and ch2.name not in have and ch2.name != al.name:
+                                    self.tree.body.append(copy.deepcopy(ch2))
+                                    have.add(ch2.name)
+                            out.append((name, rp))
+                            missing.discard(name)
+                            break
+        return out
 
     def _annotate(self, node, parent, prefix):
         for child in ast.iter_child_nodes(node):
